@@ -14,7 +14,14 @@ CHECKS = {'C01': {'level': 'exploration',
                  'QueryAt of another row (moves the transaction cursor), bulk deletes also run [With/Without(name);] DeleteAll, and one history in '
                  'eight STARTS on a collection whose Restore from a truncated multi-block snapshot failed (the model starts from whatever Restore '
                  'left behind) | since round 5: transaction bodies that PANIC between two steps (caller recovers) after update/delete-only prefixes '
-                 '- nothing of them may ever become visible',
+                 '- nothing of them may ever become visible | since round 6: every sequential history runs under a heartbeat watchdog (a step that '
+                 'makes no progress for 300 s ends the process with a WATCHDOG-VIOLATION line: with one goroutine at work that is a lock which is '
+                 'never released); callbacks of operations on EXISTING rows may fail too (the call reports the error, the stores stay buffered and '
+                 'commit); the harness record codec has an optional field that its decoder leaves alone when absent (like encoding/json with omitted '
+                 'fields); string columns may use a "set or append" merge that returns a sub-slice of its delta | zigzag histories (since fix f30): '
+                 'merge into a row, write the same column of a row in another block, come back to the first row (merge, then perhaps a put) on a '
+                 'column whose merge changes the length; the f15 exclusion is NOT applied in this check (it has no indexes, triggers, loggers or '
+                 'replicas)',
          'assumptions': ["values are in the documented domain (strings <= 65535 bytes; SetAny/SetMany values have the column's Go type)",
                          'writes target rows that are live when issued (writes to dead offsets are outside the property)',
                          'histories are bounded: <= 3 blocks (offsets < 49152), ~30 actions, <= 12 steps per transaction'],
@@ -49,7 +56,12 @@ CHECKS = {'C01': {'level': 'exploration',
                  'return an error after their last step (one in six; in "abort-heavy" free-parallel programs every second one, with mostly inserts): '
                  'nothing of them may apply, be emitted or stay reserved | since round 5: transaction bodies that PANIC between two steps (caller '
                  'recovers) after update/delete-only prefixes are treated like rolled-back ones (bodies that have inserted are not generated: a '
-                 'panic skips the rollback that releases reserved offsets, and the property speaks of bodies that RETURN an error)',
+                 'panic skips the rollback that releases reserved offsets, and the property speaks of bodies that RETURN an error) | since round 6: '
+                 'every sequential history runs under a heartbeat watchdog (a step that makes no progress for 300 s ends the process with a '
+                 'WATCHDOG-VIOLATION line: with one goroutine at work that is a lock which is never released); callbacks of operations on EXISTING '
+                 'rows may fail too (the call reports the error, the stores stay buffered and commit); the harness record codec has an optional '
+                 'field that its decoder leaves alone when absent (like encoding/json with omitted fields); string columns may use a "set or append" '
+                 'merge that returns a sub-slice of its delta',
          'assumptions': ['in-flight observation happens from the same goroutine between two steps of the body (no latch is held there)',
                          'generator exclusions driven by known findings are counted in coverage.excluded_by_known_finding'],
          'tests': [{'run': '^TestC02$',
@@ -78,7 +90,11 @@ CHECKS = {'C01': {'level': 'exploration',
                  'creation through a later transaction, or was back-filled over >=2 populated blocks; distinct = hash of the trace | parallel part '
                  '(TestC03Parallel): indexes are created, dropped and re-created WHILE 1..4 writer goroutines commit puts and merges on 2..3 blocks; '
                  "once everything is quiet each index's With().Range set must equal its predicate over the values read back (schedule-independent "
-                 'oracle)',
+                 'oracle) | since round 6: every sequential history runs under a heartbeat watchdog (a step that makes no progress for 300 s ends '
+                 'the process with a WATCHDOG-VIOLATION line: with one goroutine at work that is a lock which is never released); callbacks of '
+                 'operations on EXISTING rows may fail too (the call reports the error, the stores stay buffered and commit); the harness record '
+                 'codec has an optional field that its decoder leaves alone when absent (like encoding/json with omitted fields); string columns may '
+                 'use a "set or append" merge that returns a sub-slice of its delta',
          'assumptions': ["index predicates decode the value with the column's own width (Reader.Int on an int16 column is zero-extended by design)",
                          'quiescent checks only (no transaction is committing while an index is read)'],
          'tests': [{'run': '^TestC03$',
@@ -124,7 +140,8 @@ CHECKS = {'C01': {'level': 'exploration',
                  'stream behind commit.Log (around 1, 2 and 3 MiB +- 70000 bytes), through every view incl. Log.Append/Range in memory and on a file '
                  '| since round 5: offset moves exactly at / next to the 2^7, 2^14, 2^21, 2^28 length boundaries of the variable-length delta (in '
                  'the exhaustive alphabet and the random generator); every view is read a second time with the SAME reader after it ranged over '
-                 'blocks (Seek+Next, Seek+Rewind+Next, Rewind inside a Range callback)',
+                 'blocks (Seek+Next, Seek+Rewind+Next, Rewind inside a Range callback) | since round 6: the commits of a log carry IDs that DEcrease '
+                 'from commit to commit (every commit is for another block; IDs only grow per block)',
          'assumptions': ['offsets < 2^31 and byte strings <= 65535 bytes (format limits)',
                          'merge operations always carry a value (as every caller in kelindar/column does)'],
          'tests': [{'run': '^TestC05Exhaustive$', 'timeout': {'quick': 600, 'thorough': 3000}, 'env': {'GOMAXPROCS': 1}},
@@ -163,7 +180,11 @@ CHECKS = {'C01': {'level': 'exploration',
                  'programs (controlled and free-parallel) contain transactions that return an error after their last step (one in six; in '
                  '"abort-heavy" free-parallel programs every second one, with mostly inserts): nothing of them may apply, be emitted or stay '
                  'reserved | since round 5 (chain replication): the first replica has a change stream of its own, and a second-level replica fed '
-                 'from THAT stream must equal the model too',
+                 'from THAT stream must equal the model too | since round 6: every sequential history runs under a heartbeat watchdog (a step that '
+                 'makes no progress for 300 s ends the process with a WATCHDOG-VIOLATION line: with one goroutine at work that is a lock which is '
+                 'never released); callbacks of operations on EXISTING rows may fail too (the call reports the error, the stores stay buffered and '
+                 'commit); the harness record codec has an optional field that its decoder leaves alone when absent (like encoding/json with omitted '
+                 'fields); string columns may use a "set or append" merge that returns a sub-slice of its delta',
          'assumptions': ['the replica has the same schema (columns created at the same history points) and the same index definitions',
                          'comparison happens when the primary is quiescent'],
          'tests': [{'run': '^TestC06$',
@@ -198,7 +219,11 @@ CHECKS = {'C01': {'level': 'exploration',
                  'model considers free and model equality keeps holding; a final extra round trip. non-trivial = a snapshotted state had a row in '
                  'block>=1 or a deleted/reused offset AND >=1 mutation happened after a restore; distinct = hash of the trace | the schema may also '
                  'hold up to two computed columns that are not bitmap indexes (a sort index on a string column, a trigger), created at any point of '
-                 'the history - also before late data columns',
+                 'the history - also before late data columns | since round 6: every sequential history runs under a heartbeat watchdog (a step that '
+                 'makes no progress for 300 s ends the process with a WATCHDOG-VIOLATION line: with one goroutine at work that is a lock which is '
+                 'never released); callbacks of operations on EXISTING rows may fail too (the call reports the error, the stores stay buffered and '
+                 'commit); the harness record codec has an optional field that its decoder leaves alone when absent (like encoding/json with omitted '
+                 'fields); string columns may use a "set or append" merge that returns a sub-slice of its delta',
          'assumptions': ['the restoring collection has the same columns (names, kinds, merge functions) as the original',
                          'vacuum is parked (24h interval), so the expire column is an ordinary int64 column here'],
          'tests': [{'run': '^TestC07$',
@@ -338,7 +363,11 @@ CHECKS = {'C01': {'level': 'exploration',
                  'sequential history a second collection replays the recorded change stream and must equal the model as well (re-used offsets carry '
                  'no stale data there either) | since round 5 the concurrent programs (controlled and free-parallel) contain transactions that '
                  'return an error after their last step (one in six; in "abort-heavy" free-parallel programs every second one, with mostly inserts): '
-                 'nothing of them may apply, be emitted or stay reserved',
+                 'nothing of them may apply, be emitted or stay reserved | since round 6: every sequential history runs under a heartbeat watchdog '
+                 '(a step that makes no progress for 300 s ends the process with a WATCHDOG-VIOLATION line: with one goroutine at work that is a '
+                 'lock which is never released); callbacks of operations on EXISTING rows may fail too (the call reports the error, the stores stay '
+                 'buffered and commit); the harness record codec has an optional field that its decoder leaves alone when absent (like encoding/json '
+                 'with omitted fields); string columns may use a "set or append" merge that returns a sub-slice of its delta',
          'assumptions': ['free-parallel runs are not bit-reproducible: the replay re-runs the generated program (schedule left to the Go runtime)'],
          'tests': [{'run': '^TestC11$',
                     'checks': {'quick': 200, 'thorough': 2000},
@@ -383,7 +412,11 @@ CHECKS = {'C01': {'level': 'exploration',
                  'another row on the same transaction (the transaction cursor moves before the call returns) | since round 5: a stream follower '
                  'replays the change stream at intermediate points and at the end and must pass the same key-lookup checks; one history in eight '
                  'starts after a failed Restore of a truncated snapshot (the expected state comes from a probe collection, the collection under test '
-                 'runs no transaction before the first generated one)',
+                 'runs no transaction before the first generated one) | since round 6: every sequential history runs under a heartbeat watchdog (a '
+                 'step that makes no progress for 300 s ends the process with a WATCHDOG-VIOLATION line: with one goroutine at work that is a lock '
+                 'which is never released); callbacks of operations on EXISTING rows may fail too (the call reports the error, the stores stay '
+                 'buffered and commit); the harness record codec has an optional field that its decoder leaves alone when absent (like encoding/json '
+                 'with omitted fields); string columns may use a "set or append" merge that returns a sub-slice of its delta',
          'assumptions': ['existence is judged against the committed table when the operation is issued (documented mechanism)',
                          'the key column is written only through InsertKey/UpsertKey/SetKey (SetAny on the key column bypasses the duplicate test '
                          'and is outside the property)'],
@@ -418,7 +451,8 @@ CHECKS = {'C01': {'level': 'exploration',
                  'boundaries inside the log tail are restored: whenever Restore returns nil EVERY row must satisfy a+b==0, c==a (a state containing '
                  'part of a commit does not) | since round 5 the parallel part has hot rows into which every writer merges a positive amount: across '
                  'growing prefixes of one snapshot (state section alone, up to 40 cuts inside the log tail, complete file) their restored values may '
-                 'never decrease',
+                 'never decrease | since round 6: on keyed schemas the transactions that run during the snapshot use key operations over the small '
+                 'key alphabet (a key may leave one block and come back in another while the blocks are cut at different times)',
          'assumptions': ['a crash leaves a prefix of the byte stream (no torn or reordered sectors)',
                          'which files are generated is random (rapid); offsets per file are enumerated as stated (coverage.exhaustive is true only '
                          'in the thorough tier)'],
@@ -449,7 +483,9 @@ CHECKS = {'C01': {'level': 'exploration',
                  'by a successful restore comparison; distinct = (collection, plan) | added later: in one snapshot call out of four a SECOND '
                  'Snapshot call is issued at a drawn yield point of the one in progress (from the snapshotting goroutine itself): it may be refused '
                  'or succeed, must leave no temp file or descriptor behind, and when it returns nil its output must restore to the row count of that '
-                 'moment | since round 5: the first healthy snapshot of every case is restored and compared (also for collections without rows)',
+                 'moment | since round 5: the first healthy snapshot of every case is restored and compared (also for collections without rows) | '
+                 'since round 6: in large layouts with a plain string column some snapshots (failing and healthy) get a log tail of more than 1 MiB: '
+                 'one bulk transaction re-writes the string of all ~33 000 rows at a drawn yield point',
          'assumptions': ['fault positions are enumerated per collection as described; which collections are tried is random (rapid)',
                          'descriptor/file leaks are counted by name pattern column_*.log so unrelated runtime descriptors cannot alarm'],
          'tests': [{'run': '^TestC14$',
@@ -479,7 +515,14 @@ CHECKS = {'C01': {'level': 'exploration',
                  'second collection with a logger of its own replays every emitted commit, interleaved with local writes into the same block; the '
                  'stream IT emits must satisfy the same invariants (exactly one commit per replayed commit / local write, distinct non-zero IDs, '
                  'per-block increasing in its own apply order); transaction bodies that panic between steps (update/delete-only prefixes) emit '
-                 'nothing',
+                 'nothing | since round 6: every sequential history runs under a heartbeat watchdog (a step that makes no progress for 300 s ends '
+                 'the process with a WATCHDOG-VIOLATION line: with one goroutine at work that is a lock which is never released); callbacks of '
+                 'operations on EXISTING rows may fail too (the call reports the error, the stores stay buffered and commit); the harness record '
+                 'codec has an optional field that its decoder leaves alone when absent (like encoding/json with omitted fields); string columns may '
+                 'use a "set or append" merge that returns a sub-slice of its delta | since round 6: an archive of older commits is written and read '
+                 'back in-process (Log.Append / Log.Range) between transactions: later IDs must still be fresh | TestC15Vacuum: rows with a short '
+                 'time-to-live in one or two blocks; once the cleanup has removed them, the recorded stream replayed on a follower without a cleanup '
+                 'of its own must reproduce the primary (what the cleanup commits is emitted), and the ID invariants hold over the whole stream',
          'assumptions': ['record order at the logger is apply order (Append is called under the block latch)'],
          'tests': [{'run': '^TestC15$',
                     'checks': {'quick': 250, 'thorough': 2500},
@@ -504,7 +547,11 @@ CHECKS = {'C01': {'level': 'exploration',
                     'shards': {'quick': 1, 'thorough': 3},
                     'env': {'VERIF_PROP': 'C15'},
                     'timeout': {'quick': 900, 'thorough': 3400},
-                    'shrinktime': '5s'}]},
+                    'shrinktime': '5s'},
+                   {'run': '^TestC15Vacuum$',
+                    'checks': {'quick': 40, 'thorough': 600},
+                    'shards': {'quick': 1, 'thorough': 2},
+                    'timeout': {'quick': 900, 'thorough': 3400}}]},
  'C16': {'level': 'exploration',
          'rule': 'model-based stateful histories over a string column whose values come from a 5-value alphabet with forced duplicates (incl. the '
                  'empty string) and default / order-sensitive merge functions: inserts, overwrites (also to an existing value), merges, deletes, '
@@ -516,7 +563,11 @@ CHECKS = {'C01': {'level': 'exploration',
                  "the values read at the callback equal the model's and are non-decreasing. non-trivial = >=2 visited rows share a value after some "
                  'row was overwritten or deleted since the index was created; distinct = hash of the trace | parallel creation (TestC16Parallel): '
                  'the sort index is created (dropped, re-created) while 1..4 writers re-key, delete and insert rows over 2..4 blocks; judged at '
-                 'quiescence',
+                 'quiescence | since round 6: every sequential history runs under a heartbeat watchdog (a step that makes no progress for 300 s ends '
+                 'the process with a WATCHDOG-VIOLATION line: with one goroutine at work that is a lock which is never released); callbacks of '
+                 'operations on EXISTING rows may fail too (the call reports the error, the stores stay buffered and commit); the harness record '
+                 'codec has an optional field that its decoder leaves alone when absent (like encoding/json with omitted fields); string columns may '
+                 'use a "set or append" merge that returns a sub-slice of its delta',
          'assumptions': ['quiescent checks (no writer runs during Ascend)'],
          'tests': [{'run': '^TestC16$',
                     'checks': {'quick': 300, 'thorough': 3000},
@@ -547,7 +598,8 @@ CHECKS = {'C01': {'level': 'exploration',
                  'reads the clock BEFORE judging, so a deadline that passes during a pass cannot end the loop early | since round 5: rows whose '
                  'short TTL is taken away again with SetTTL(0) / TTL().Set(0) must never expire | TestC17PooledClock: K nested read-only queries put '
                  'K pooled transaction objects into use, 1.3-1.7 s later K nested inserts give their rows a TTL slightly longer than that idle '
-                 'period: each row must be present while "call time + ttl" is more than a second away',
+                 'period: each row must be present while "call time + ttl" is more than a second away | since round 6: an hour-long TTL shortened to '
+                 'a few milliseconds with a NEGATIVE Extend must expire',
          'assumptions': ['wall-clock property: margins (1 s safety guard band, 10 s liveness bound = >200x the expected latency) instead of a clock '
                          'hook; a run on a machine stalled for more than the margins would be inconclusive, never a violation of safety',
                          'timing is not reproducible bit-for-bit; the case (rows, TTLs, interval, mode) is'],
@@ -578,7 +630,8 @@ CHECKS = {'C01': {'level': 'exploration',
                  'gated so that they never name an unregistered index | since round 5: failing inserts (row callback returns an error) and '
                  'rolled-back inserting transactions in the insert/delete worker and in a targeted workload | race attribution since round 5: a '
                  'listed finding may restrict the PARTNER access (other=<regex>); reports whose partner is an Apply or a Grow are never attributed '
-                 'to the growth-vs-load finding',
+                 'to the growth-vs-load finding | since round 6: record merges committed into different blocks at the same time (random programs and '
+                 'a targeted workload)',
          'assumptions': ['the race detector only reports races that actually execute in the run',
                          "which listed finding a report belongs to is decided by the unsynchronised mutator's function name (known_findings.txt "
                          'race=<regex>)'],
@@ -609,7 +662,13 @@ CHECKS = {'C01': {'level': 'exploration',
                  'reach every trigger exactly once with the stored value, every created trigger/index can be dropped, and nothing is called after '
                  'its drop | since round 5: a trigger created / dropped at the moment the next committing transaction stands in front of its first '
                  'block latch (yield point commit:pre-latch, issued from the committing goroutine): the created one must be told everything of that '
-                 'commit, the dropped one nothing',
+                 'commit, the dropped one nothing | since round 6: every sequential history runs under a heartbeat watchdog (a step that makes no '
+                 'progress for 300 s ends the process with a WATCHDOG-VIOLATION line: with one goroutine at work that is a lock which is never '
+                 'released); callbacks of operations on EXISTING rows may fail too (the call reports the error, the stores stay buffered and '
+                 'commit); the harness record codec has an optional field that its decoder leaves alone when absent (like encoding/json with omitted '
+                 'fields); string columns may use a "set or append" merge that returns a sub-slice of its delta | TestC19ParallelStores: one '
+                 'trigger, 2..4 writers that commit unique stores, merges and deletions into DIFFERENT blocks at the same moment; at quiescence '
+                 'every committed store/deletion was reported exactly once with the stored value and nothing else was reported',
          'assumptions': ['bool columns are not watched (a false store is encoded as the delete op-code by design)',
                          'stores into a row that the same transaction also deletes are not judged (only its single delete call is)'],
          'tests': [{'run': '^TestC19$',
@@ -619,6 +678,11 @@ CHECKS = {'C01': {'level': 'exploration',
                     'env': {'GOMAXPROCS': 1}},
                    {'run': '^TestC19Parallel$',
                     'checks': {'quick': 40, 'thorough': 1500},
+                    'shards': {'quick': 1, 'thorough': 2},
+                    'timeout': {'quick': 900, 'thorough': 3400},
+                    'shrinktime': '5s'},
+                   {'run': '^TestC19ParallelStores$',
+                    'checks': {'quick': 100, 'thorough': 3000},
                     'shards': {'quick': 1, 'thorough': 2},
                     'timeout': {'quick': 900, 'thorough': 3400},
                     'shrinktime': '5s'}]}}
